@@ -3,6 +3,7 @@ package main
 import (
 	"fmt"
 	"os"
+	"runtime/pprof"
 
 	"verif/mc/fw"
 	_ "verif/mc/props"
@@ -16,6 +17,14 @@ func main() {
 	self, _ := os.Executable()
 	switch os.Args[1] {
 	case "worker":
+		if p := os.Getenv("VERIF_PROF"); p != "" {
+			f, _ := os.Create(fmt.Sprintf("%s.%d", p, os.Getpid()))
+			pprof.StartCPUProfile(f)
+			rc := fw.WorkerMain(os.Args[2:])
+			pprof.StopCPUProfile()
+			f.Close()
+			os.Exit(rc)
+		}
 		os.Exit(fw.WorkerMain(os.Args[2:]))
 	case "check":
 		os.Exit(fw.CheckMain(self, os.Args[2], os.Args[3]))
